@@ -79,6 +79,14 @@ PropC04(e) == e.ev = "pp" =>
 PropC04x(e) == (e.ev = "pp" /\ "want" \in DOMAIN e) =>
    /\ NormMsgJ(e.orig) = NormMsgJ(e.want.msg)
    /\ e.string = e.want.text
+\* C16, TLC -> Go: the real Variables() of the message built from TLC's description is the specification's variable list of it,
+\* and that list is what the real printed text shows, name by name (a repeat marker is printed without its number)
+PropC16x(e) == (e.ev = "pp" /\ "want" \in DOMAIN e /\ e.want.msg.item.f # "none") =>
+   LET vs == Vars(e.want.msg.item)
+       names == LET ts == SelectSeq(Lx(e.string)!Tokens, LAMBDA x : x.t \in {"Variable", "Ellipsis"}) IN [i \in 1..Len(ts) |-> ts[i].v]
+       U(s) == [i \in 1..Len(s) |-> IF IsEllipsisName(s[i]) THEN <<46, 46, 46>> ELSE s[i]] IN
+   /\ e.vars = vs /\ NoDup(e.vars)
+   /\ U(e.vars) = U(names)
 AgreeC04(e) == e.ev = "pp" => e.string = PrintMsg(e.orig) /\ Real(e.re) = Model(e.re)
 
 \* ------------------------------------------------------------------ C08: layout invariance
@@ -171,6 +179,7 @@ InvAgreeParse == l > 0 => AgreeParse(E)
 InvAgreeLex == l > 0 => AgreeLex(E)
 InvC04 == l > 0 => PropC04(E)
 InvC04x == l > 0 => PropC04x(E)
+InvC16x == l > 0 => PropC16x(E)
 InvAgreeC04 == l > 0 => AgreeC04(E)
 InvC08 == l > 0 => PropC08(E)
 InvAgreeC08 == l > 0 => AgreeC08(E)
